@@ -277,16 +277,18 @@ def check_join(ctx, prog):
         # the joining loop runs over the container the created threads were put into: with a thread created it iterates at
         # least once, so its zero-iteration exit is infeasible in state 'created'
         join_loop_conds = set()
-        for lp in ir.walk_stmts(f['body']):
-            if lp.get('k') in ('for', 'while') and lp.get('c') is not None and any(e.get('k') == 'call' and e.get('pq') == 'asl::Thread::join' for e in ir.stmt_exprs(lp['body'])):
-                for w in walk_expr(lp['c']):
-                    join_loop_conds.add(id(w))
+        scope = [f] + [h for h in prog.functions if h.get('body') and h is not f and (h.get('file') == f.get('file') or h.get('clsp') == f.get('clsp'))]
+        for g_ in scope:
+            for lp in ir.walk_stmts(g_['body']):
+                if lp.get('k') in ('for', 'while') and lp.get('c') is not None and any(e.get('k') == 'call' and e.get('pq') == 'asl::Thread::join' for e in ir.stmt_exprs(lp['body'])):
+                    for w in walk_expr(lp['c']):
+                        join_loop_conds.add(id(w))
 
         def edge(nd, lab, st):
             if nd.kind == 'br' and st[0] == 'created' and id(nd.e) in join_loop_conds and lab is False:
                 return None
             return st
-        reached, _ = cfgm.dataflow(cfg, ('start', 'start'), step, edge)
+        reached, _ = cfgm.dataflow(cfg, ('start', 'start'), cfgm.follow_helpers(prog, f, step, edge=edge), edge)
         ctx.evaluations += sum(len(v) for v in reached.values())
         exits = reached.get(cfg.exit.id, set())
         bad = [s_ for s_ in exits if s_[0] in ('created', 'deleted-unjoined')]
